@@ -62,6 +62,16 @@ def cases(tier: str, seed: int) -> List[Dict[str, Any]]:
                     if not us and fmt is None and final is None:
                         continue
                     out.append({"family": fam, "unit_scale": us, "fmt": fmt, "final": final, "seed": seed})
+        # structure / history coordinates: a parameter frozen when the transforms are applied (nothing may be
+        # shared with the original); the intermediate module is TRAINED (parameters updated in place) before
+        # the next transform is applied (each nesting starts from the module it was given, not from an ancestor)
+        for us in (False, True):
+            if us and fam == "unit_layers":
+                continue
+            for fmt, final in ((None, "track"), ("fp8", None), ("e5m2rn", "track")):
+                out.append({"family": fam, "unit_scale": us, "fmt": fmt, "final": final, "seed": seed, "freeze": True})
+                if len(([1] if us else []) + ([1] if fmt else []) + ([1] if final else [])) >= 2:
+                    out.append({"family": fam, "unit_scale": us, "fmt": fmt, "final": final, "seed": seed, "train_between": True})
         comp = ["mlp", "residual", "sequential_root"] if tier == "quick" else list(FAMILIES)
         if fam in comp:
             for us in (False, True):
@@ -94,8 +104,10 @@ def run_case(case: Dict[str, Any]) -> Dict[str, Any]:
 
     fam, us, fmt, final = case["family"], case["unit_scale"], case["fmt"], case["final"]
     prog = dict(FAMILIES[fam], first="x")
+    if case.get("freeze"):
+        prog["freeze_first"] = True
     tset = (["unit_scale"] if us else []) + ([f"fmt:{fmt}"] if fmt else [])
-    ident = f"{fam}|set={'+'.join(tset) or 'none'}|final={final}"
+    ident = f"{fam}|set={'+'.join(tset) or 'none'}|final={final}" + ("|frozen_param" if case.get("freeze") else "")
     viol: List[Dict[str, str]] = []
     steps = 0
 
@@ -145,6 +157,54 @@ def run_case(case: Dict[str, Any]) -> Dict[str, Any]:
 
     results: List[Tuple[str, Any]] = []
     orders = list(itertools.permutations(tset)) or [()]
+    if case.get("train_between"):
+        ident += "|trained_between"
+        try:
+            for order in orders:
+                chain = list(order) + ([final] if final else [])
+                label = ">".join(chain)
+                m, src = build(prog, case["seed"])
+                inp = inputs(prog, case["seed"])
+                cur, prev_state, inter = m, None, []
+                for i, t in enumerate(chain):
+                    cur = apply(cur, t)
+                    if prev_state is not None and t != "unit_scale":
+                        # (unit_scale re-initialises its copy; every other transform copies values faithfully)
+                        bad = [k for k, v in cur.state_dict().items() if not torch.equal(v, prev_state[k])]
+                        if bad:
+                            viol.append({"key": ident + "|copy_does_not_start_from_the_module_it_was_given",
+                                         "msg": f"{label}: after '{t}' parameters {bad[:3]} differ from the (trained) module that was transformed"})
+                            break
+                    if i < len(chain) - 1:
+                        torch._dynamo.reset()
+                        call(cur, inp)
+                        with torch.no_grad():
+                            for j, p_ in enumerate(cur.parameters()):
+                                p_.mul_(1.0 + 0.25 * (i + 1)).add_(0.125 * (j + 1))
+                        prev_state = {k: v.clone() for k, v in cur.state_dict().items()}
+                        inter.append((cur, prev_state))
+                    steps += 1
+                if viol:
+                    break
+                torch._dynamo.reset()
+                out = call(cur, inp)
+                for mi, st in inter:  # earlier modules of the chain keep their own (trained) values
+                    if any(not torch.equal(v, st[k]) for k, v in mi.state_dict().items()):
+                        viol.append({"key": ident + "|intermediate_state_changed", "msg": label})
+                m2, _ = build(prog, case["seed"])
+                ref = m2
+                for t in chain:
+                    ref = apply(ref, t)
+                ref.load_state_dict(cur.state_dict())
+                torch._dynamo.reset()
+                d = same(out, call(ref, inp))
+                if d:
+                    viol.append({"key": ident + "|differs_from_untrained_chain_with_same_parameters", "msg": f"{label}: {d}"})
+                steps += 2
+        except Exception as e:  # noqa
+            return {"violations": viol + [exception_violation(e, ident)], "steps": steps, "outcome": "raises"}
+        return {"violations": viol[:3], "steps": steps, "n_states": len(orders), "nontrivial": True,
+                "outcome": f"trained:{'ok' if not viol else 'bad'}"}
     try:
         for order in orders:
             chain = list(order) + ([final] if final else [])
